@@ -684,7 +684,7 @@ func c11History(c *Ctx, i int, r *gen.R) {
 
 // ---- bare containers, exhaustive
 
-var c11ContOps = []string{"AddError(nil)", "AddError(e)", "AddErrorList(nil)", "AddErrorList([])", "AddErrorList([nil])", "AddErrorList([e]) then caller overwrites its list", "AddErrorList([e,nil,e]) then caller overwrites its list", "AddErrorList([nil,nil,e])", "AddErrorList([e,e]) with spare capacity, caller appends to its list afterwards", "B.AddErrorList(A.Errors())", "B.AddError(e)", "AddError(zero-valued error values)", "AddErrorList([zero-valued struct error, nil, error code 0])"}
+var c11ContOps = []string{"AddError(nil)", "AddError(e)", "AddErrorList(nil)", "AddErrorList([])", "AddErrorList([nil])", "AddErrorList([e]) then caller overwrites its list", "AddErrorList([e,nil,e]) then caller overwrites its list", "AddErrorList([nil,nil,e])", "AddErrorList([e,e]) with spare capacity, caller appends to its list afterwards", "B.AddErrorList(A.Errors())", "B.AddError(e)", "AddError(zero-valued error values)", "AddErrorList([zero-valued struct error, nil, error code 0])", "A.AddErrorList(append(A.Errors(), e, e)): the caller extends the list A handed out and hands it back", "A.AddErrorList(append(A.Errors(), nil, e)): the same with a nil entry"}
 
 var c11Scribble = errors.New("the caller's own later use of its list")
 
@@ -784,6 +784,27 @@ func c11Containers(c *Ctx, i int, r *gen.R) {
 			if kind != 2 {
 				exp = append(exp, c11ZeroStructErr{}, c11CodeErr(0))
 			}
+		case 13, 14:
+			// the list a container handed out is the caller's: it appends its new findings to it and reports the lot
+			// (everything it had seen plus the new ones) - to the same container
+			n += 2
+			a, b := errors.New(fmt.Sprintf("e%d", n-1)), errors.New(fmt.Sprintf("e%d", n))
+			found := ec.Errors()
+			old := append([]error{}, exp...)
+			if op == 13 {
+				found = append(found, a, b)
+			} else {
+				found = append(found, nil, b)
+			}
+			ec.AddErrorList(found)
+			c.Rec.Count("lists_handed_back_that_extend_the_list_the_container_handed_out", 1)
+			if kind != 2 {
+				exp = append(exp, old...)
+				if op == 13 {
+					exp = append(exp, a)
+				}
+				exp = append(exp, b)
+			}
 		}
 		c.Rec.Count("container_comparisons", 2)
 		for which, pair := range []struct {
@@ -827,7 +848,7 @@ func init() {
 	register(&Prop{
 		ID:    "C11",
 		Level: "exploration",
-		Rule: "phase 0 (exhaustive): every sequence of up to L (4 quick, 5 thorough) container operations over {AddError(nil|e), AddErrorList(nil|[]|[nil]|[e]|[e,nil,e]|[nil,nil,e]|[e,e] with spare capacity) with the caller overwriting / appending to its own list afterwards, B.AddErrorList(A.Errors()), B.AddError(e)} on a constructed, a zero-value and a nil container A and a second container B, Errors() of both compared with the non-nil inputs in order after each operation; " +
+		Rule: "phase 0 (exhaustive): every sequence of up to L (4 quick, 5 thorough) container operations over {AddError(nil|e), AddErrorList(nil|[]|[nil]|[e]|[e,nil,e]|[nil,nil,e]|[e,e] with spare capacity) with the caller overwriting / appending to its own list afterwards, B.AddErrorList(A.Errors()), B.AddError(e), A.AddErrorList(append(A.Errors(), e, e)), A.AddErrorList(append(A.Errors(), nil, e))} on a constructed, a zero-value and a nil container A and a second container B, Errors() of both compared with the non-nil inputs in order after each operation; " +
 			"phase 1: random table histories of 5-40 steps mixing direct errors on the table / unattached rows / attached rows / separator rows, AddErrorList with nil entries, cells added to separator rows, a second (summary) table fed with t.Errors() while both tables go on collecting, the caller overwriting its list after AddErrorList, failing callbacks (fresh unique error per failing invocation) registered on table, columns, unattached rows, attached rows and cells at all times and targets, row attachment, and render passes (InvokeRenderCallbacks, csv, text). " +
 			"Distinct = distinct histories; non-trivial = at least one error was raised.",
 		Assumptions: []string{
